@@ -15,7 +15,7 @@ func init() {
 		ID:         "C02",
 		Title:      "An acknowledged batch survives any later crash",
 		Rules:      []string{"C02.R1", "C02.R2", "C02.R3", "C02.R4", "C02.R5", "C13.R1", "C13.R2"},
-		Decides:    "ordering over ALL control-flow paths instead of sampled crash points: every acknowledgement (close/nil-send on an ack channel, nil call of a persisted-callback) is reachable only behind the success edge of a snapshot persist of the snapshot grabbed together with those acks; acks happen only in the persister goroutine; every segment of a snapshot is persisted (or provably already on disk) before the snapshot that names it, a failed segment persist can never reach the snapshot persist, the deletion policy learns of a commit only after the snapshot persist succeeded; the persister's grab of (root, ack channels, callbacks) and the introducer's swap are each one critical section; safe mode creates a buffered ack channel and Batch returns nil only after receiving from it; plus the file-level durability order of C13.",
+		Decides:    "ordering over ALL control-flow paths instead of sampled crash points: every acknowledgement (close/nil-send on an ack channel, nil call of a persisted-callback) is reachable only behind the success edge of a snapshot persist of the snapshot grabbed together with those acks; acks happen only in the persister goroutine; every segment of a snapshot is persisted (or provably already on disk) before the snapshot that names it, a failed segment persist can never reach the snapshot persist, the deletion policy learns of a commit only after the snapshot persist succeeded; the persister's grab of (root, ack channels, callbacks) and the introducer's swap are each one critical section; safe mode creates a buffered ack channel and Batch returns nil only after receiving from it; plus the file-level durability order of C13. the snapshot written in place of S after an in-memory merge lists only S's own elements or stand-ins built in place (C02.R5).",
 		NotCovered: "what the OS does below fsync; that the bytes written are a correct encoding (parts of C12/C13); the actual set of documents in the persisted snapshot (C01/C06).",
 	})
 	registerRule(&RuleInfo{ID: "C02.R1", Title: "acks only behind a successful persist of the grabbed snapshot, only in the persister", Floor: 5, Run: ruleC02R1,
@@ -492,28 +492,28 @@ func ruleC02R2(c *Ctx) {
 				c.checkLiteralSnapshotSegmentsLoaded(fn, gs, al, key, pos)
 				continue
 			}
-			// loop over w.segment with a segment persist of the element
-			var segSites []ssa.CallInstruction
-			eachInstr(fn, func(in ssa.Instruction) {
-				ci, ok := in.(ssa.CallInstruction)
-				if !ok || !ci.Common().IsInvoke() || !a.isDirCall(ci.Common(), a.DirPersist, a.KindSegment) {
-					return
-				}
-				args := dirArgs(ci.Common())
-				elemOf := func(v ssa.Value) bool {
-					return dependsOn(v, func(x ssa.Value) bool {
-						ia, ok := x.(*ssa.IndexAddr)
-						if !ok {
-							return false
+			// loop over w.segment with a segment persist of the element: in this function, or in a helper
+			// that receives the snapshot and is called before the snapshot persist
+			loopFn, loopW := fn, w
+			var helperCall *ssa.Call
+			if len(segPersistSites(a, fn, w)) == 0 {
+				eachInstr(fn, func(in ssa.Instruction) {
+					ci, ok := in.(*ssa.Call)
+					if !ok || helperCall != nil {
+						return
+					}
+					h := ci.Common().StaticCallee()
+					if h == nil || h.Blocks == nil || funcPkgPath(h) != pkgIndex {
+						return
+					}
+					for i, arg := range ci.Common().Args {
+						if (arg == w || sameBase(arg, w)) && i < len(h.Params) && len(segPersistSites(a, h, h.Params[i])) > 0 {
+							helperCall, loopFn, loopW = ci, h, h.Params[i]
 						}
-						f, base := loadedField(ia.X)
-						return f == a.SnapSegment && sameBase(base, w)
-					})
-				}
-				if elemOf(args[1]) && elemOf(args[2]) {
-					segSites = append(segSites, ci)
-				}
-			})
+					}
+				})
+			}
+			segSites := segPersistSites(a, loopFn, loopW)
 			if len(segSites) == 0 {
 				c.Violate(key, pos, "no Directory.Persist(ItemKindSegment, elem.id, elem.segment) over the elements of the snapshot's segment list precedes the snapshot persist")
 				continue
@@ -526,46 +526,87 @@ func ruleC02R2(c *Ctx) {
 			}
 			inLoop := naturalLoop(loopHead)
 			var problems []string
-			if inLoop[gs.Block()] {
-				problems = append(problems, "the snapshot persist is inside the segment loop")
-			}
-			if !loopHead.Dominates(gs.Block()) {
-				problems = append(problems, "the segment loop does not dominate the snapshot persist")
+			if helperCall == nil {
+				if inLoop[gs.Block()] {
+					problems = append(problems, "the snapshot persist is inside the segment loop")
+				}
+				if !loopHead.Dominates(gs.Block()) {
+					problems = append(problems, "the segment loop does not dominate the snapshot persist")
+				}
+			} else {
+				if !(helperCall.Block() == gs.Block() && instrIndex(helperCall) < instrIndex(gs) || helperCall.Block() != gs.Block() && helperCall.Block().Dominates(gs.Block())) {
+					problems = append(problems, "the helper that persists the segments does not dominate the snapshot persist")
+				}
+				eachInstr(loopFn, func(in ssa.Instruction) {
+					if r, ok := in.(*ssa.Return); ok && !loopHead.Dominates(r.Block()) {
+						problems = append(problems, "the helper "+FuncName(loopFn)+" can return without having entered its segment loop")
+					}
+				})
 			}
 			// path rule: per-iteration skip discipline and failure containment
 			allowSkip := reach[fn]
 			m := newDurabilityModel(c.Program)
-			ex := m.sum.Explorer(fn)
-			base := ex.OnInstr
 			badSkip, badFail := false, false
-			ex.OnInstr = func(in ssa.Instruction, st *PState) bool {
-				if base != nil {
-					base(in, st)
+			exceeded := false
+			{
+				ex := m.sum.Explorer(loopFn)
+				prevOut := ex.Outcomes
+				ex.Outcomes = func(call ssa.CallInstruction, st *PState) []Outcome {
+					if persistedMethod != nil && call.Common().StaticCallee() == persistedMethod && inLoop[call.Block()] {
+						return []Outcome{{Results: []Tri{TriYes}, Flags: dfSkipOK}, {Results: []Tri{TriNo}}}
+					}
+					return prevOut(call, st)
 				}
-				if in == gs && st.Flags&dfSegFailed != 0 {
-					badFail = true
-				}
-				return true
-			}
-			prevOut := ex.Outcomes
-			ex.Outcomes = func(call ssa.CallInstruction, st *PState) []Outcome {
-				if persistedMethod != nil && call.Common().StaticCallee() == persistedMethod && inLoop[call.Block()] {
-					return []Outcome{{Results: []Tri{TriYes}, Flags: dfSkipOK}, {Results: []Tri{TriNo}}}
-				}
-				return prevOut(call, st)
-			}
-			ex.OnEdge = func(from, to *ssa.BasicBlock, st *PState) {
-				if to == loopHead {
-					if inLoop[from] { // back edge: one iteration finished
-						if st.Flags&dfSegPersisted == 0 && (st.Flags&dfSkipOK == 0 || !allowSkip) {
-							badSkip = true
+				if helperCall == nil {
+					base := ex.OnInstr
+					ex.OnInstr = func(in ssa.Instruction, st *PState) bool {
+						if base != nil {
+							base(in, st)
+						}
+						if in == gs && st.Flags&dfSegFailed != 0 {
+							badFail = true
+						}
+						return true
+					}
+				} else {
+					// a failed segment persist must make the helper report an error
+					ei := fnErrIdx(loopFn)
+					ex.OnReturn = func(r *ssa.Return, st *PState) {
+						if st.Flags&dfSegFailed != 0 && (ei < 0 || ei >= len(r.Results) || st.Eval(r.Results[ei]) != TriYes) {
+							badFail = true
 						}
 					}
-					st.Flags &^= dfSegPersisted | dfSkipOK
 				}
+				ex.OnEdge = func(from, to *ssa.BasicBlock, st *PState) {
+					if to == loopHead {
+						if inLoop[from] { // back edge: one iteration finished
+							if st.Flags&dfSegPersisted == 0 && (st.Flags&dfSkipOK == 0 || !allowSkip) {
+								badSkip = true
+							}
+						}
+						st.Flags &^= dfSegPersisted | dfSkipOK
+					}
+				}
+				ex.Run()
+				exceeded = exceeded || ex.Exceeded
 			}
-			ex.Run()
-			if ex.Exceeded {
+			if helperCall != nil {
+				// in the caller: the snapshot persist is unreachable once the helper reported a failed segment persist
+				ex := m.sum.Explorer(fn)
+				base := ex.OnInstr
+				ex.OnInstr = func(in ssa.Instruction, st *PState) bool {
+					if base != nil {
+						base(in, st)
+					}
+					if in == gs && st.Flags&dfSegFailed != 0 {
+						badFail = true
+					}
+					return true
+				}
+				ex.Run()
+				exceeded = exceeded || ex.Exceeded
+			}
+			if exceeded {
 				c.Undecided(key, pos, "path exploration did not finish")
 				continue
 			}
@@ -1092,4 +1133,31 @@ func isRootSwapper(fn *ssa.Function, a *IdxAnchors) bool {
 		}
 	}
 	return false
+}
+
+// segPersistSites: the Directory.Persist(ItemKindSegment, elem.id, elem.segment) calls of fn
+// whose id and item are taken from an element of w.segment.
+func segPersistSites(a *IdxAnchors, fn *ssa.Function, w ssa.Value) []ssa.CallInstruction {
+	var segSites []ssa.CallInstruction
+	eachInstr(fn, func(in ssa.Instruction) {
+		ci, ok := in.(ssa.CallInstruction)
+		if !ok || !ci.Common().IsInvoke() || !a.isDirCall(ci.Common(), a.DirPersist, a.KindSegment) {
+			return
+		}
+		args := dirArgs(ci.Common())
+		elemOf := func(v ssa.Value) bool {
+			return dependsOn(v, func(x ssa.Value) bool {
+				ia, ok := x.(*ssa.IndexAddr)
+				if !ok {
+					return false
+				}
+				f, base := loadedField(ia.X)
+				return f == a.SnapSegment && (base == w || sameBase(base, w))
+			})
+		}
+		if elemOf(args[1]) && elemOf(args[2]) {
+			segSites = append(segSites, ci)
+		}
+	})
+	return segSites
 }
